@@ -539,7 +539,7 @@ class CallMixin:
                 return SV(lty, it.t)  # identity map: a copy of the source list
         if not conds:
             arr = self.ctx.fresh_term(z3.ArraySort(z3.IntSort(), val.ty.sort()), "map")
-            self.ctx.assume(sorts.forall([jj], z3.Implies(z3.And(0 <= jj, jj < n), z3.Select(arr, jj) == vj), patterns=[z3.Select(arr, jj)]))
+            self.ctx.assume(sorts.forall([jj], z3.Implies(z3.And(0 <= jj, jj < n), z3.Select(arr, jj) == vj), patterns=[z3.Select(arr, jj), z3.Select(lty.arr(it.t), jj)]))
             R = rty.mk(n, arr)
             # membership: y in R <=> exists j. y = f(L[j])
             wit = z3.Function(f"mapw!{next(_wcount)}", val.ty.sort(), z3.IntSort())
@@ -719,6 +719,11 @@ class CallMixin:
             return mk_none()
         if attr == "copy":
             return SV(base.ty, base.t)
+        if attr == "clear":
+            self.need_place(base, node)
+            if base.t is not None:
+                self.write_place(base.place, SV(base.ty, base.ty.empty()))
+            return mk_none()
         if attr in ("union", "intersection", "difference"):
             o = self.unopt(args[0], node)
             if base.t is None and o.t is None:
@@ -804,7 +809,14 @@ class CallMixin:
         if attr == "find":
             return SV(TInt, z3.IndexOf(s, args[0].t, 0))
         if attr == "join":
-            raise Unsupported("str.join", node)
+            # level-1: a named function of (separator, list); content is not interpreted
+            L = self.iter_list(args[0], node)
+            if L.t is None:
+                return mk_str("")
+            key = "uf:str_join"
+            if key not in sorts._cache:
+                sorts._cache[key] = z3.Function("py_str_join", z3.StringSort(), TList(TStr).sort(), z3.StringSort())
+            return SV(TStr, sorts._cache[key](s, L.t))
         if attr == "format":
             return self.ctx.fresh(TStr, "fmt")
         raise Unsupported("str." + attr, node)
@@ -989,6 +1001,18 @@ class CallMixin:
         rx = z3.Concat(*parts) if len(parts) > 1 else parts[0]
         return mk_bool(z3.InRe(s_.t, rx))
 
+    def spec_local(self, node):
+        """local('n'): value of the function's local variable n at the exit being checked."""
+        name = ast.literal_eval(node.args[0])
+        fl = getattr(self, "final_locals", None) or {}
+        if name not in fl:
+            raise Unsupported(f"contract refers to local {name!r} which does not exist at this exit", node)
+        v = fl[name]
+        if v.place is not None and v.place[0] != "local":
+            cur = self.read_place(v.place)
+            return SV(cur.ty, cur.t)
+        return SV(v.ty, v.t, None, v.py)
+
     def spec_int_of(self, node):
         (v,) = self.args_of(node)
         return self.as_int(v, node)
@@ -1026,6 +1050,13 @@ class CallMixin:
         if len(args) != len(fn.params):
             raise Unsupported(f"spec fn {fn.name} arity", node)
         args = [self.coerce(a, ty, node) for a, (_, ty) in zip(args, fn.params)]
+        if fn.body is None:
+            key = "uf:" + fn.name
+            if key not in sorts._cache:
+                sorts._cache[key] = z3.Function(fn.name, *[ty.sort() for _, ty in fn.params], fn.ret.sort())
+            r = SV(fn.ret, sorts._cache[key](*[a.t for a in args]))
+            self.ctx.assume_wf(r)
+            return r
         if fn.recursive:
             f = self.rec_fn(fn)
             return SV(fn.ret, f(*[a.t for a in args]))
@@ -1079,7 +1110,7 @@ _EMPTY_SET = _EmptyS()
 
 SPEC_FORMS = {
     "forall", "exists", "implies", "iff", "ite", "old", "asc", "desc", "distinct", "elems", "dom", "card",
-    "subset", "empty_set", "is_none", "some", "clock", "raised", "ghost", "get", "int_of", "str_of", "lpre", "pos", "eq_ci",
+    "subset", "empty_set", "is_none", "some", "clock", "raised", "ghost", "get", "int_of", "str_of", "lpre", "pos", "eq_ci", "local",
 }
 
 import itertools
